@@ -115,6 +115,11 @@ pub fn exec(tok: &[&str]) -> String {
         "keygen_digest" => crate::keys::op_digest(tok[1].parse().unwrap(), &unhex(tok[2])),
         "sk_fields" => crate::c04::op_sk_fields(tok[1].parse().unwrap(), &parse_ints::<i64>(tok[2]), &parse_ints::<i64>(tok[3]), &parse_ints::<i64>(tok[4])),
         "first_candidate" => crate::keys::op_first_candidate(tok[1].parse().unwrap(), &unhex(tok[2])),
+        // ---- signing (C01, C08, C10) ---------------------------------------------------------------------
+        "sign" => crate::sign::op_sign(tok[1].parse().unwrap(), &unhex(tok[2]), &unhex(tok[3]), tok[4].parse().unwrap()),
+        "sign_salt" => crate::sign::op_sign_salt(tok[1].parse().unwrap(), &unhex(tok[2]), &unhex(tok[3]), tok[4].parse().unwrap()),
+        "sign_fresh" => crate::sign::op_sign_fresh(tok[1].parse().unwrap(), &unhex(tok[2]), tok[3].parse().unwrap(), tok[4].parse().unwrap()),
+        "sign_leaves" => crate::c01::op_sign_leaves(tok[1].parse().unwrap(), &unhex(tok[2]), &unhex(tok[3]), tok[4].parse().unwrap()),
         // ---- hash to point (C14) -------------------------------------------------------------------
         "hash_to_point" => ints(&vh::hash_to_point(&unhex(tok[2]), tok[1].parse().unwrap())),
         _ => panic!("bad-op {}", tok[0]),
